@@ -317,7 +317,8 @@ def run(ctx):
     if ctx.replay:
         try:
             rp = json.load(open(ctx.replay))
-            args = [h, "-seed", str(rp.get("seed", ctx.seed)), "-dir", fxdir, "-n", str(max(0, rp["index"] + 1 - 2 * rp.get("noptions", 35))), "-from", str(rp["index"])]
+            vf.sh([h, "-dir", fxdir, "-n", "0", "-from", "1000000000"], timeout=300, env=vf.GOENV)      # prepares the fixtures only
+            args = [h, "-seed", str(rp.get("seed", ctx.seed)), "-dir", fxdir, "-one", str(rp["index"])]
         except Exception as e:
             ctx.notes.append("replay file not understood: %s" % e)
     rc, out = vf.sh(args, timeout=1200, env=vf.GOENV)
@@ -411,7 +412,7 @@ def run(ctx):
     nontriv = {json.dumps(o["prog"]) for o in obs if len(o["prog"]) >= 2 and any(cl for cl in o["prog"])}
     ctx.coverage.update({
         "evaluations": len(obs), "distinct_nontrivial": len(nontriv),
-        "rule": "programs = sequences of NewClient calls, each program in a fresh process: every exported Option constructor of config.go (list regenerated from the source) alone followed by a default client, then between two default clients, then %d seeded random programs (1-4 clients, 0-9 options each, arguments incl. nil/empty/boundary values, caller-built dialers, unparsable certificates, missing files); after every call all package defaults and all clients are dumped by reflection; distinct_nontrivial = distinct programs with >= 2 clients and >= 1 option" % n,
+        "rule": "programs = sequences of NewClient calls, each program in a fresh process: every exported Option constructor of config.go (list regenerated from the source) alone followed by a default client, then between two default clients, then after Dialer(d) for each partially filled d (empty, only net.Dialer, only ClientACK), then %d seeded random programs (1-4 clients, 0-9 options each, arguments incl. nil/empty/boundary values, caller-built dialers, unparsable certificates, missing files); after every call all package defaults and all clients are dumped by reflection; distinct_nontrivial = distinct programs with >= 2 clients and >= 1 option" % n,
         "samples": [{"prog": o["prog"], "outcomes": [s["outcome"] for s in o["steps"]]} for o in obs[16:18] + obs[-2:]],
         "options_exercised": used, "outcomes": outcomes, "programs_with_explicit_default_pointer_excluded_from_oracle": excluded,
         "traces_validated_against_impl": len(lines), "model_impl_mismatches": detail.get("mismatch_count", 0),
@@ -423,7 +424,7 @@ def run(ctx):
         if key in seen:
             continue
         seen.add(key)
-        if ctx.finding(key, what, {"index": o["index"], "noptions": len(used) and len(open(os.path.join(vf.GO, "cmd/confharness/options_gen.go")).read().split("{Name: \"")) - 1 - len(o["pristine"]),
+        if ctx.finding(key, what, {"index": o["index"],
                                    "program": o["prog"], "outcomes": [s["outcome"] for s in o["steps"]],
                                    "how": "go/cmd/confharness -seed <seed> -dir <fixtures> -one <index> (fresh process): the listed NewClient calls in order, dumping package defaults and all clients after each; ./check C23 --replay <this file>"}):
             new += 1
